@@ -486,6 +486,10 @@ def gen_simple(rng, o):
         return ('char', rng.choice(sorted(CHAR_KINDS)))
     if k == 'useful':
         return ('useful', rng.choice(sorted(USEFUL_KINDS)))
+    if k == 'bits' and rng.random() < 0.2:
+        return ('bits', (('b0', 0), ('b2', 2), ('b7', 7)))          # BIT STRING { b0(0), b2(2), b7(7) }
+    if k == 'int' and rng.random() < 0.15:
+        return ('int', (('zero', 0), ('one', 1), ('big', 255)))     # INTEGER { zero(0), one(1), big(255) }
     return (k,)
 
 
